@@ -38,6 +38,10 @@ Lemma is_name_char_except_equiv ex c :
   eval (is_name_char_except ex) c = eval spec_NameChar c && negb (existsb (N.eqb c) ex).
 Proof. unfold is_name_char_except. cbn [eval]. now rewrite is_name_char_equiv, existsb_point. Qed.
 
+Lemma is_name_start_char_except_equiv ex c :
+  eval (is_name_start_char_except ex) c = eval spec_NameStartChar c && negb (existsb (N.eqb c) ex).
+Proof. unfold is_name_start_char_except. cbn [eval]. now rewrite is_name_start_char_equiv, existsb_point. Qed.
+
 Lemma is_pubid_char_except_equiv ex c :
   eval (is_pubid_char_except ex) c = eval spec_PubidChar c && negb (existsb (N.eqb c) ex).
 Proof. unfold is_pubid_char_except. cbn [eval]. now rewrite is_pubid_char_equiv, existsb_point. Qed.
